@@ -30,6 +30,11 @@ def dropin_scenarios(rng, tier):
     n = {"quick": 600, "thorough": 10000, "search": 2500}[tier]
     for i in range(n):
         s = C13.random_history(rng, 25 if i % 4 else 6)
+        # plain rulesets only: a ruleset-cgroup ruleset preruns its template as well as its instances (C11), which this
+        # pass's counting clause does not model
+        s.pop("tree", None)
+        for b in s["rulesets"]:
+            b.pop("cgroup", None)
         s["prop"] = PROP
         s["main_loop"] = True
         yield s
